@@ -52,7 +52,8 @@ BaseDocs(d) ==
              \cup { <<Rec(0, 0, 2, 64, <<16, 32>>)>>, <<Rec(1, 16, 3, 48, <<32>>)>>, <<Rec(3, 300, 3, 900, <<32>>)>>, <<Rec(2, 64, 5, 64, <<16>>)>>,   \* in-use and alloc pairs agreeing in one number only
               <<Rec(2, 100, 2, 100, <<16>>), Rec(7, 7000, 7, 7000, <<4096, 17>>)>>,
               <<Rec(2, 100, 2, 100, <<16>>), Rec(0 - 2, 0 - 2048, 0, 0, <<32>>)>>,     \* a negative in-use pair (the grammar allows it): unsampled like any other
-              <<Rec(1, 16, 3, 48, <<32>>), Rec(0 - 3, 0 - 300, 3, 900, <<16>>)>> } }
+              <<Rec(1, 16, 3, 48, <<32>>), Rec(0 - 3, 0 - 300, 3, 900, <<16>>)>>,
+              <<Rec(4, 8, 4, 8, <<16>>)>>, <<Rec(50, 50, 50, 50, <<32>>)>> } }    \* tiny objects: at rate 1 nothing is unsampled, at rate 4 a lot
   \cup
   \* growth and fragmentation profiles: the heap grammar with period 1, no unsampling, in-use pair only
   { [fmt |-> "heap", variant |-> v, recs |-> rs, rate |-> 0, period |-> 0, hz |-> 0] :
